@@ -212,7 +212,7 @@ fn dead_effect_family() -> Vec<Prog> {
 /// Counting loops with two (or three) induction variables that start at different values and step
 /// differently; the body uses values derived from the counter that is NOT in the guard (`j * m + c`),
 /// alone and mixed with values derived from the guard counter.
-fn multi_counter_loop_family() -> Vec<Prog> {
+fn multi_counter_loop_family(thorough: bool) -> Vec<Prog> {
   let guards: [(&str, &str); 3] = [("i<B", "i < 12"), ("i!=B", "i != 12"), ("B>i", "12 > i")];
   // (stride of i, stride of j): every i stride divides 12 - i0 for the starts below
   let strides: [(i32, i32); 3] = [(1, 3), (2, -1), (4, 4)];
@@ -235,6 +235,10 @@ fn multi_counter_loop_family() -> Vec<Prog> {
             for third in [false, true] {
               // the third counter only for the first result form
               if third && rname != "acc" {
+                continue;
+              }
+              // quick: the other result forms and the third counter only with the first pair of strides
+              if !thorough && (rname != "acc" || third) && (s1, s2) != strides[0] {
                 continue;
               }
               let (params, args, call0, kuse) = if third {
@@ -569,7 +573,7 @@ fn main() {
   progs.extend(operand_order_family());
   progs.extend(inline_permutation_family());
   progs.extend(dead_effect_family());
-  progs.extend(multi_counter_loop_family());
+  progs.extend(multi_counter_loop_family(thorough));
   progs.extend(same_member_name_family());
   // (class-bound programs do not survive lowering on the pinned tree: known finding C03-K2)
   let fams: Vec<Prog> = progfam::all_families(thorough).into_iter().filter(|p| p.family != "class-bound").collect();
@@ -588,9 +592,16 @@ fn main() {
       }
     }
   } else {
-    // quick: a fixed slice of the other families (every 8th program, all small families)
+    // quick: a fixed slice of the other families (every 8th program, every 24th of vec-ops, all small families)
     for (i, p) in fams.into_iter().enumerate() {
-      if !matches!(p.family, "vec-ops" | "int-expression" | "type-shape" | "inference-shape") || i % 8 == 0 {
+      // (the long programs of vec-eq and target-names at every 4th)
+      let stride = match p.family {
+        "vec-ops" => 24,
+        "int-expression" | "type-shape" | "inference-shape" => 8,
+        "vec-eq" | "target-names" => 4,
+        _ => 1,
+      };
+      if i % stride == 0 {
         progs.push(p);
       }
     }
